@@ -212,6 +212,7 @@ def apply_ref(rm, op):
     if k == "set_formula":
         if op["c"] in sp.cells:
             sp.cells[op["c"]].src = op["src"]
+            sp.cells[op["c"]].inputs.clear()     # a formula assignment discards all values of the cells
         else:   # overriding a derived cells defines it
             definer, c = rm.cells_of(op["sp"])[op["c"]]
             sp.cells[op["c"]] = RCells(op["src"], c.cached, None)
@@ -222,8 +223,7 @@ def apply_ref(rm, op):
         else:
             definer, c = rm.cells_of(op["sp"])[op["c"]]
             sp.cells[op["c"]] = RCells(c.src, op["v"], None)
-        if not op["v"]:
-            sp.cells[op["c"]].inputs.clear()
+        sp.cells[op["c"]].inputs.clear()     # any flag assignment discards all values of the cells
         return
     if k == "set_allow_none":
         if op.get("c"):
